@@ -6,6 +6,7 @@ from autograd.extend import defjvp, defvjp
 from autograd.tracer import isbox
 
 from . import numpy_wrapper as anp
+from .numpy_vjps import unbroadcast_f
 from .numpy_wrapper import wrap_namespace
 
 wrap_namespace(npla.__dict__, globals())
@@ -75,11 +76,14 @@ defvjp(pinv, grad_pinv)
 
 
 def grad_solve(argnum, ans, a, b):
-    updim = lambda x: x if x.ndim == a.ndim else x[..., None]
+    # b is a (stack of) vector(s) exactly when the result has fewer dimensions than the larger operand
+    b_is_vector = anp.ndim(ans) < max(anp.ndim(a), anp.ndim(b))
+    updim = lambda x: x[..., None] if b_is_vector else x
+    adjoint_solve = lambda g: solve(T(a), updim(g))  # the cotangent as a (stack of) column(s)
     if argnum == 0:
-        return lambda g: -_dot(updim(solve(T(a), g)), T(updim(ans)))
+        return unbroadcast_f(a, lambda g: -_dot(adjoint_solve(g), T(updim(ans))))
     else:
-        return lambda g: solve(T(a), g)
+        return unbroadcast_f(b, lambda g: adjoint_solve(g)[..., 0] if b_is_vector else adjoint_solve(g))
 
 
 defvjp(solve, partial(grad_solve, 0), partial(grad_solve, 1))
